@@ -135,9 +135,19 @@ def session_script(r, conformant, force_lower=False, burst=False):
                 for _ in range(r.choice([1, 1, 2, 3]))]
         if r.random() < 0.2:
             segs.append("abandoned")
+    if not (force_lower or burst) and r.random() < 0.15:
+        segs = ["same-again"] + segs
     for i, kind in enumerate(segs):
         kinds.append(kind)
-        if kind == "complete":
+        if kind == "same-again":
+            # an analyser that sends its whole message as one frame and reports the same result in two sessions in a row
+            text = C03.json_conformant_text(r) if conformant else None
+            fr = gens.message_frames(r, seq=1, text=text, parts=1)[0][0]
+            for _k in range(2):
+                add(gens.ENQ)
+                add(fr)
+                add(gens.EOT)
+        elif kind == "complete":
             one_session(last=(i == len(segs) - 1))
         elif kind == "retransmit":
             one_session(retransmit=True)
@@ -429,6 +439,15 @@ def run(ctx):
     # many instruments finishing in the same turn of the event loop
     for i in range(4 if ctx.thorough else 1):
         inprocess_run(r, r.choice(["astm", "json"]), ip, burst=True, n_clients=r.choice([90, 130]))
+    # a server that has archived more sessions than it may hold descriptors open (soft limit lowered for the run)
+    import resource
+    soft, hard = resource.getrlimit(resource.RLIMIT_NOFILE)
+    used = len(os.listdir("/proc/self/fd"))
+    try:
+        resource.setrlimit(resource.RLIMIT_NOFILE, (used + 100, hard))
+        inprocess_run(r, "astm", ip, burst=False, n_clients=r.choice([140, 170]))
+    finally:
+        resource.setrlimit(resource.RLIMIT_NOFILE, (soft, hard))
     # outside the stated domain (O1), model against code only: sessions of line-oriented senders whose frames end
     # with CR only / LF only / nothing behind the checksum
     from harness.props import C03
